@@ -455,18 +455,37 @@ func genGoMod(r *rand.Rand, i, n int) *Case {
 		tags = append(tags, "go-"+cl.Go)
 	}
 	c := &Case{Stream: stream, Tags: structTags(nrec, tags...), NRecords: nrec, Claim: cl, data: renderGoMod(r, cl), coqClaim: "None"}
-	if claim {
-		var rq []string
+	{
+		// the claim: records incl. replace / toolchain directives; Coq's wf_gomod decides whether the oracle applies
+		var rq, rp []string
 		for _, p := range cl.Requires {
 			rq = append(rq, "("+coqStr(p.Name)+", "+coqStr(p.Version)+")")
 		}
-		c.coqClaim = fmt.Sprintf("(Some {| gq_requires := %s; gq_go := %s |})", coqList(rq), coqStr(cl.Go))
-		c.Expected = append([]Pkg(nil), cl.Requires...)
-		if cl.Go != "" {
-			c.Expected = append(c.Expected, Pkg{"stdlib", cl.Go})
+		for _, x := range cl.Replaces {
+			rp = append(rp, fmt.Sprintf("{| rr_old := %s; rr_oldv := %s; rr_new := %s; rr_newv := %s |}", coqStr(x.Old), coqStr(x.OldV), coqStr(x.New), coqStr(x.NewV)))
+		}
+		c.coqClaim = fmt.Sprintf("(Some {| gq_requires := %s; gq_replaces := %s; gq_go := %s; gq_toolchain := %s |})", coqList(rq), coqList(rp), coqStr(cl.Go), coqStr(cl.Toolchain))
+		// independent expectation (Go side, for the side file): first matching replace per requirement
+		for _, p := range cl.Requires {
+			out := p
+			for _, x := range cl.Replaces {
+				if x.Old == p.Name && (x.OldV == "" || x.OldV == p.Version) {
+					out = Pkg{x.New, x.NewV}
+					break
+				}
+			}
+			c.Expected = append(c.Expected, out)
+		}
+		gv := cl.Go
+		if cl.Toolchain != "" {
+			gv = strings.TrimPrefix(strings.SplitN(cl.Toolchain, "-", 2)[0], "go")
+		}
+		if gv != "" {
+			c.Expected = append(c.Expected, Pkg{"stdlib", gv})
 		}
 		sortPkgs(c.Expected)
 	}
+	_ = claim
 	c.coqExtra = coqGoModSt(cl)
 	return c
 }
